@@ -33,9 +33,9 @@ ASSUMPTIONS = [
 class Cyclic(Counting):
     """Pull-counting source of n data rows repeating a block (cheap for any n)."""
 
-    def __init__(self, hdr, block, n):
+    def __init__(self, hdr, block, n, tail=()):
         Counting.__init__(self, None)
-        self.hdr, self.block, self.n = hdr, block, n
+        self.hdr, self.block, self.n, self.tail = hdr, block, n, tail
 
     def _gen(self):
         self.header_pulls += 1
@@ -44,6 +44,9 @@ class Cyclic(Counting):
         for i in range(self.n):
             self.data_pulls += 1
             yield b[i % len(b)]
+        for r in self.tail:
+            self.data_pulls += 1
+            yield r
         self.exhausted += 1
 
 
@@ -141,8 +144,11 @@ def _stream_case(draw, tier, names):
     return c
 
 
-def _take(view_factory, hdr, block, n, k, which=0, other=None):
-    src = Cyclic(hdr, block, n)
+POISON = [["P", "P", 7, "xPx"], ["Q", "Q", 8, "xQx"], ["P", "Q", 9, "#x"]]
+
+
+def _take(view_factory, hdr, block, n, k, which=0, other=None, tail=()):
+    src = Cyclic(hdr, block, n, tail)
     view = view_factory(src)
     out = []
     it = iter(view)
@@ -192,15 +198,18 @@ def check_stream(case, ctx):
     if len(out2) < k + 1:
         ctx.label("short-output")  # fewer than k rows exist even in the long source: nothing to compare
         return None
-    # need(k): shortest source prefix on which the same k+1 items come out
+    # need(k): shortest source prefix that DETERMINES the first k+1 items: the same items come out whether the source ends
+    # there or continues with different rows (so rows that an operator can only emit once its input is exhausted - the
+    # second table of cat/stack, the tail of annex - count as needing the whole source)
+    def determines(m):
+        try:
+            return _take(factory, hdr, block, m, k)[0] == out2 and _take(factory, hdr, block, m, k, tail=POISON)[0] == out2
+        except Exception:
+            return False
     lo, hi = 0, p2
     while lo < hi:
         mid = (lo + hi) // 2
-        try:
-            o, _ = _take(factory, hdr, block, mid, k)
-        except Exception:
-            o = None
-        if o == out2:
+        if determines(mid):
             hi = mid
         else:
             lo = mid + 1
